@@ -45,8 +45,14 @@ Qed.
 Lemma subclass_nf data v : nf (subclass data v).
 Proof. unfold subclass, subclass_unknown, subclass_gfa1, segment_subclass. split_ifs; reflexivity. Qed.
 
+Lemma unsafe_nf md s : nf (unsafe_accepts_module md s).
+Proof. unfold unsafe_accepts_module. split_ifs; reflexivity. Qed.
+
 Lemma init_field_nf O vl dt s : nf (init_field O vl dt s).
-Proof. unfold init_field. split_ifs; reflexivity. Qed.
+Proof.
+  unfold init_field. destruct (Nat.leb 1 vl); [split_ifs; reflexivity|].
+  destruct (in_strs dt T_DELAYED_PARSING_DATATYPES); [reflexivity|]. destruct (module_of dt); [apply unsafe_nf|reflexivity].
+Qed.
 
 Lemma parse_tag_nf s : nf (parse_tag s).
 Proof. unfold parse_tag. split_ifs; reflexivity. Qed.
